@@ -3,7 +3,7 @@ from .. import lib, runner
 
 PROP = "C10"
 THEOREMS = ["Bridge.no_strobe_outside_transfer", "Bridge.one_access_per_granule", "Bridge.ack_once_on_time", "Bridge.read_lanes", "Bridge.back_to_back", "Bridge.idle_stays", "Bridge.atomic_register_write", "Bridge.transfer"]
-IMPORTS = ["SocVerif"]
+IMPORTS = ["SocVerif.Props.C10"]
 
 
 def mask_model(line):
